@@ -35,6 +35,7 @@ Nothing executable is ever injected: ghost statements are checked to start with 
 `let ghost`, `assert(`, `assert forall`, `broadcast use` or `reveal(`.
 """
 import hashlib
+import json
 import os
 import re
 import difflib
@@ -110,6 +111,27 @@ def parse_target(s):
         raise GenError('bad fn target %r' % s)
     trait, ty, name = m.group(1), m.group(2) or None, m.group(3)
     return (ty, trait, name)
+
+
+def template_sha(lines):
+    return hashlib.sha256('\n'.join(lines).encode()).hexdigest()
+
+
+def load_derived_tags(template_path, lines):
+    """contracts/derived_tags.json: {unit: {"template_sha256": .., "tags": {cid: [PID..]}}}, written by bin/deptags (clause
+    ablation on the pinned tree).  Ignored when the template changed since it was computed."""
+    p = os.path.join(VERIF, 'contracts', 'derived_tags.json')
+    if not os.path.exists(p):
+        return {}
+    try:
+        with open(p) as f:
+            d = json.load(f)
+    except Exception:
+        return {}
+    ent = d.get(os.path.basename(template_path)[:-4])
+    if not ent or ent.get('template_sha256') != template_sha(lines):
+        return {}
+    return ent.get('tags', {})
 
 
 def read_template(path, seen=None):
@@ -376,6 +398,7 @@ class FnEmitter:
         self.benchmark = benchmark
         self.report = report
         self.fired = []
+        self.ablate = None
 
     def fire(self, rule, detail=''):
         self.fired.append((rule, detail))
@@ -1135,10 +1158,12 @@ def publicize_fields(text):
 
 
 class Generator:
-    def __init__(self, repo, benchmark=False):
+    def __init__(self, repo, benchmark=False, ablate=None, use_derived=True):
         self.repo = repo
         self.benchmark = benchmark
         self.files = {}
+        self.ablate = ablate            # dependency analysis (bin/deptags): emit `true` for this ensures clause
+        self.use_derived = use_derived  # merge contracts/derived_tags.json (which properties' proofs rest on a clause)
 
     def sf(self, rel):
         if rel not in self.files:
@@ -1154,6 +1179,18 @@ class Generator:
         errors=[(fn, msg)])"""
         lines = read_template(template_path)
         segs = parse_template(lines)
+        derived = load_derived_tags(template_path, lines) if self.use_derived else {}
+        if self.ablate:
+            # dependency analysis (bin/deptags): neutralise exactly one clause
+            for sg in segs:
+                if sg[0] != 'fn':
+                    continue
+                for c in sg[1].clauses:
+                    if c.cid == self.ablate:
+                        if c.kind == 'ensures' or c.kind.startswith('loop_invariant') or c.kind == 'loop_ensures':
+                            c.text = 'true'
+                        elif re.match(r'^\s*(proof\s*\{|assert\b)', c.text):
+                            c.text = 'proof { }'
         assumed = []
         for ln in lines:
             m = re.match(r'^\s*//@assumed\s+(\S+)\s+(\S+(?:\s+for\s+\S+)?)\s*\[([^\]]*)\]\s*(?:mirror=(\S+))?', ln)
@@ -1242,6 +1279,7 @@ class Generator:
                 try:
                     sf = self.sf(spec.file)
                     em = FnEmitter(spec, sf, self.benchmark, None)
+                    em.ablate = self.ablate
                     flines, rec = em.emit(probe=False)
                     if spec.qname in quarantine or originals_external:
                         # re-emit as external_body with its contract only
@@ -1254,7 +1292,7 @@ class Generator:
                     fn_ranges.append((start, end, spec.qname, spec.default))
                     rec['lines'] = (start, end)
                     rec['default_tags'] = spec.default
-                    rec['clauses'] = [{'cid': c.cid, 'kind': c.kind, 'tags': c.tags, 'text': c.text} for c in spec.clauses
+                    rec['clauses'] = [{'cid': c.cid, 'kind': c.kind, 'tags': c.tags, 'text': c.text, 'derived': derived.get(c.cid, [])} for c in spec.clauses
                                       if c.kind in ('requires', 'ensures', 'decreases') or c.kind.startswith('loop_')]
                     rec['noreturn'] = spec.noreturn
                     records.append(rec)
@@ -1293,7 +1331,7 @@ class Generator:
                     records.append({'fn': spec.qname, 'file': spec.file, 'sha256': '', 'fired': [], 'orig': '',
                                     'lines': (0, 0), 'default_tags': spec.default, 'noreturn': spec.noreturn,
                                     'gen_error': str(e),
-                                    'clauses': [{'cid': c.cid, 'kind': c.kind, 'tags': c.tags, 'text': c.text} for c in spec.clauses
+                                    'clauses': [{'cid': c.cid, 'kind': c.kind, 'tags': c.tags, 'text': c.text, 'derived': derived.get(c.cid, [])} for c in spec.clauses
                                                 if c.kind in ('requires', 'ensures', 'decreases') or c.kind.startswith('loop_')]})
         if twin_groups:
             # twins are spread over child modules so that Verus verifies them in parallel (one job per module)
@@ -1333,7 +1371,8 @@ class Generator:
                 tags_of[c.cid] = (c.tags or spec.default, spec.qname, c.kind, c.text)
         explicit_tagged = set(c.cid for spec in specs for c in spec.clauses if c.tags)
         return {'text': text, 'records': records, 'clause_at': clause_at, 'fn_ranges': fn_ranges,
-                'errors': errors, 'tags_of': tags_of, 'specs': specs, 'explicit_tagged': explicit_tagged, 'assumed': assumed}
+                'errors': errors, 'tags_of': tags_of, 'specs': specs, 'explicit_tagged': explicit_tagged, 'assumed': assumed,
+                'derived': derived}
 
     @staticmethod
     def quarantined(flines):
